@@ -523,6 +523,22 @@ func nativeReplay(file string) (bool, string) {
 	for _, t := range tests {
 		repl[t] = ""
 	}
+	// apply the environment cut points natively (see nativeCuts)
+	for ci, cut := range nativeCuts {
+		if cut.Pkg != strings.TrimPrefix(doc.Pkg, "./") {
+			continue
+		}
+		src, err := os.ReadFile(filepath.Join(repo, cut.File))
+		if err != nil || !strings.Contains(string(src), cut.Old) {
+			return false, "native cut point not found in " + cut.File
+		}
+		f := filepath.Join(scratch, fmt.Sprintf("cut%d.go", ci))
+		os.WriteFile(f, []byte(strings.Replace(string(src), cut.Old, cut.New, 1)), 0o644)
+		repl[filepath.Join(repo, cut.File)] = f
+		w := filepath.Join(scratch, fmt.Sprintf("cutw%d.go", ci))
+		os.WriteFile(w, []byte(cut.Wrapper), 0o644)
+		repl[filepath.Join(repo, cut.Pkg, fmt.Sprintf("zz_cut_%d.go", ci))] = w
+	}
 	pkgName := packageNameOf(pkgDir)
 	var ps []string
 	for _, p := range doc.Params {
